@@ -203,7 +203,8 @@ int main(int argc, char** argv) {
                 }
             } else if (cmd == "getindex") {
                 std::string lab; unsigned orb, spin; is >> lab >> orb >> spin;
-                out << "o ok " << s.Idx->getIndex(unhexLabel(lab), orb, spin) << "\n";
+                unsigned gi = s.Idx->getIndex(unhexLabel(lab), orb, spin);
+                out << "o ok " << gi << "\n";
             } else if (cmd == "getinfo") {
                 unsigned i; is >> i;
                 IndexClassification::IndexInfo info = s.Idx->getInfo(i);
@@ -241,10 +242,12 @@ int main(int argc, char** argv) {
                 }
             } else if (cmd == "blockof") {
                 unsigned long n; is >> n;
-                out << "o ok " << int(s.S->getBlockNumber(QuantumState(n))) << "\n";
+                int b = int(s.S->getBlockNumber(QuantumState(n)));
+                out << "o ok " << b << "\n";
             } else if (cmd == "innerof") {
                 unsigned long n; is >> n;
-                out << "o ok " << s.S->getInnerState(QuantumState(n)) << "\n";
+                unsigned long i = s.S->getInnerState(QuantumState(n));
+                out << "o ok " << i << "\n";
             } else if (cmd == "hprepare") {
                 s.H = new Hamiltonian(*s.Idx, *s.Ham, *s.S);
                 s.H->prepare(world);
